@@ -150,6 +150,14 @@ def check_row_background_steps(chk, ix):
         return [(st, "val", True), (s2, "val", False)]
     stubs["ScenarioOutlineBuilder.has_parametrized_steps"] = has_param
 
+    def step_has_param(it, st, a, k, n):
+        # asked about ONE step: either answer is possible for every step
+        s2 = st.fork()
+        st.note("this step contains a placeholder")
+        s2.note("this step contains no placeholder")
+        return [(st, "val", True), (s2, "val", False)]
+    stubs["ScenarioOutlineBuilder.is_parametrized_step"] = step_has_param
+
     def step_for_row(it, st, args, kw, node):
         src = args[1] if isinstance(args[0], ClassVal) else args[0]
         o = st.obj(src)
@@ -162,8 +170,8 @@ def check_row_background_steps(chk, ix):
     func = ix.func("behave.model:ScenarioOutlineBuilder.make_scenario_for")
     st = State()
     st.frames = []
-    b1, t1 = _tok(st, "b1"), _tok(st, "t1")
-    tmpl_bg = st.alloc(HObj("list", kind="list", items=[b1], label="template background_steps"))
+    b1, b2, t1 = _tok(st, "b1"), _tok(st, "b2"), _tok(st, "t1")
+    tmpl_bg = st.alloc(HObj("list", kind="list", items=[b1, b2], label="template background_steps"))
     tmpl = st.alloc(HObj("TemplateStub", {"background_steps": tmpl_bg,
                                           "steps": st.alloc(HObj("list", kind="list", items=[t1]))},
                          open=True, label="template"))
